@@ -76,19 +76,6 @@ func main() {
 		seed, _ := strconv.ParseUint(os.Args[4], 10, 64)
 		i, _ := strconv.Atoi(os.Args[5])
 		os.Exit(mon.ShardMain(p, os.Args[3], seed, i, os.Args[6]))
-	case "racecanary":
-		os.Exit(props.C16Canary())
-	case "randstorm":
-		// randstorm <goroutines> <calls> <out>
-		g, _ := strconv.Atoi(os.Args[2])
-		n, _ := strconv.Atoi(os.Args[3])
-		os.Exit(props.C16RandStorm(g, n, os.Args[4]))
-	case "raceload":
-		// raceload <seed> <goroutines> <iters> <out>
-		seed, _ := strconv.ParseUint(os.Args[2], 10, 64)
-		g, _ := strconv.Atoi(os.Args[3])
-		it, _ := strconv.Atoi(os.Args[4])
-		os.Exit(props.C16Load(seed, g, it, os.Args[5], len(os.Args) > 6 && os.Args[6] == "true"))
 	case "replay":
 		p := props.Registry[os.Args[2]]
 		if p == nil {
@@ -97,6 +84,10 @@ func main() {
 
 		os.Exit(mon.ReplayMain(p, os.Args[3]))
 	default:
+		if f := props.Commands[os.Args[1]]; f != nil {
+			os.Exit(f(os.Args[2:]))
+		}
+
 		usage()
 	}
 }
